@@ -583,8 +583,8 @@ struct Budget {
 
 fn budget(tier: Tier) -> Budget {
     match tier {
-        Tier::Quick => Budget { scenarios: 640, schedules: 24 },
-        Tier::Thorough => Budget { scenarios: 16000, schedules: 96 },
+        Tier::Quick => Budget { scenarios: driver::scale(640), schedules: 24 },
+        Tier::Thorough => Budget { scenarios: driver::scale(16000), schedules: 96 },
     }
 }
 
